@@ -27,15 +27,16 @@ void vfh_entropy_reset(uint64_t seed);
 int vfh_entropy_select(int stream);
 void vfh_clock_set_ms(int64_t ms);
 void vfh_clock_advance_ms(int64_t d);
-#define C19_STACK 6
-#define C19_FAULTLOG 8
-typedef struct { void *ptr; uint64_t size; uint64_t seq; void *stack[C19_STACK]; } c19_live_t;
-typedef struct { uint64_t seq; uint64_t size; int kind; void *stack[C19_STACK]; } c19_fault_t;
+#define C19_STACK 12
+#define C19_FAULTLOG 4
+typedef struct { void *ptr; uint64_t size; uint64_t seq; void *site; } c19_live_t;
+typedef struct { uint64_t seq; uint64_t size; int kind; int depth; void *stack[C19_STACK]; } c19_fault_t;
 extern volatile int c19_armed;
 void c19_arm(void); void c19_disarm(void); void c19_reset(void);
 void c19_plan(int mode, uint64_t k, uint64_t seed, uint32_t den); void c19_plan_off(void);
 uint64_t c19_alloc_count(void); uint64_t c19_fault_count(void);
-void *const *c19_sites(void); const uint32_t *c19_sizes(void); const c19_fault_t *c19_fault_log(void);
+void *const *c19_sites(void); const uint32_t *c19_sizes(void); const uint32_t *c19_ctxs(void); const c19_fault_t *c19_fault_log(void);
+void c19_set_log(c19_fault_t *log, uint64_t *nfaults); void c19_trace_seq(uint64_t seq); const c19_fault_t *c19_trace(void); void c19_warmup(void);
 size_t c19_live_count(void); size_t c19_live_dump(c19_live_t *out, size_t max); int c19_ledger_overflow(void);
 extern uint64_t c19_verify_calls, c19_verify_ok, c19_validate_calls, c19_validate_ok;
 void __sanitizer_symbolize_pc(void *pc, const char *fmt, char *out, size_t out_size);
@@ -60,12 +61,12 @@ struct Shm {
     int done;
     char sig[160]; char detail[3000]; char outcome[600];
     uint64_t n_alloc, n_fault, n_alloc_scn;       // n_alloc_scn: armed allocations when the scenario body ended (before the usability handshakes)
-    c19_fault_t flog[C19_FAULTLOG];
+    c19_fault_t flog[C19_FAULTLOG]; c19_fault_t trace;
     uint64_t live_total; uint32_t n_live; c19_live_t live[96]; int ledger_overflow;
     int main_complete, main_resumed, any_error, bad_completed;
     Facts prime, main_, post;
     uint64_t delivered_c, delivered_s;
-    uint32_t n_sites; void *sites[SITES_MAX]; uint32_t sizes[SITES_MAX];
+    uint32_t n_sites; void *sites[SITES_MAX]; uint32_t sizes[SITES_MAX]; uint32_t ctxs[SITES_MAX];
 };
 static Shm *g_shm = nullptr;
 static bool g_child = false;
@@ -237,7 +238,8 @@ struct EP {
     int send_close() { if (!ssl) return PS_ARG_FAIL; sel(); int32 rc = API(matrixSslEncodeClosureAlert(ssl)); if (rc >= 0) { out_pending = true; pump(); } return rc; }
 };
 
-static void sni_cb(void *, char *, int32, sslKeys_t **newKeys) { (void) newKeys; }   // keep the session's keys
+static sslKeys_t *g_sni_keys = nullptr;
+static void sni_cb(void *, char *, int32, sslKeys_t **newKeys) { *newKeys = g_sni_keys; }   // "virtual host" lookup: the same key set
 
 // ------------------------------------------------------------------------------------------------ scenarios
 enum Ver { TLS11, TLS12, TLS13, DTLS12 };
@@ -245,15 +247,22 @@ static const char *ver_name[] = { "tls1.1", "tls1.2", "tls1.3", "dtls1.2" };
 enum Kind { SC_LOAD, SC_SESS, SC_HS };
 enum HsKind { H_FULL, H_CAUTH, H_RESUME_ID, H_RESUME_TICKET };
 static const char *hs_name[] = { "full", "client-auth", "resumed", "ticket-resumed" };
-enum Cred { GOOD, BAD_CA, BAD_NAME, BAD_PSK, BAD_CLIENT_CERT, BAD_MASTER };
-static const char *cred_name[] = { "good", "bad-ca", "bad-name", "bad-psk", "bad-client-cert", "bad-resumption-secret" };
+enum Cred { GOOD, BAD_CA, BAD_NAME, BAD_PSK, BAD_CLIENT_CERT };
+static const char *cred_name[] = { "good", "bad-ca", "bad-name", "bad-psk", "bad-client-cert" };
 struct Scn {
-    std::string name; int kind; int sub; int ver; uint16_t suite; int ckey, skey; int hs; int cred; bool data; int order; bool exts; int pmtu;
-    int gck, gsk;   // partner keys for the usability handshakes: (ckey with gsk) and (gck with skey) must both work fault-free
+    std::string name; int kind; int sub; int ver; uint16_t suite; int ckey, skey; int hs; int cred; bool data; int order; bool exts; int pmtu; int group;
+    int gck, gsk;   // partner keys for the usability handshakes: (ckey with gsk) and (gck with skey) must both work fault-free; -1 = no such partner
 };
 static std::vector<Scn> g_scn;
 
-struct HsCfg { int ver; uint16_t suite; sslKeys_t *ck, *sk; bool cauth; sslSessionId_t *sid; const char *name; bool tickets; bool exts; };
+struct HsCfg { int ver; uint16_t suite; sslKeys_t *ck, *sk; bool cauth; sslSessionId_t *sid; const char *name; bool tickets; bool exts; int group; };
+// TLS 1.3 key exchange groups: 0 library default (P-256 share), 1 x25519 only, 2 client offers an x25519 share but the server only accepts P-256 (HelloRetryRequest)
+static int32 set_groups(sslSessOpts_t *o, int group, bool client) {
+    uint16_t x[2] = { 0x001d, 0x0017 }, p[1] = { 0x0017 };
+    if (group == 1) return API(matrixSslSessOptsSetKeyExGroups(o, x, 1, 1));
+    if (group == 2) return client ? API(matrixSslSessOptsSetKeyExGroups(o, x, 2, 1)) : API(matrixSslSessOptsSetKeyExGroups(o, p, 1, 1));
+    return 0;
+}
 struct Conn {
     EP c, s; tlsExtension_t *ext = nullptr; bool opened = false;
     ~Conn() { close_all(0); }
@@ -272,17 +281,19 @@ static bool open_pair(Conn &cn, const HsCfg &h, int ext_delete_early) {
     int32 rc;
     if (h.ver == DTLS12) so.versionFlag = SSL_FLAGS_DTLS | SSL_FLAGS_TLS_1_2;
     else { psProtocolVersion_t v[1] = { ver_bit(h.ver) }; rc = API(matrixSslSessOptsSetServerTlsVersions(&so, v, 1)); if (rc < 0) return false; }
+    if (h.ver == TLS13 && set_groups(&so, h.group, false) < 0) return false;
     cn.s.sel();
     ssl_t *ss = nullptr;
     rc = API(matrixSslNewServerSession(&ss, h.sk, h.cauth ? cert_cb : NULL, &so));
     if (rc < 0) { outcome("NewServerSession=%d;", rc); return false; }
     if (!ss) { viol("c19:success-with-null-object", "matrixSslNewServerSession returned %d but no session", rc); return false; }
     cn.s.ssl = ss;
-    if (h.exts) API(matrixSslRegisterSNICallback(ss, sni_cb));
+    if (h.exts) { g_sni_keys = h.sk; API(matrixSslRegisterSNICallback(ss, sni_cb)); }
     sslSessOpts_t co; memset(&co, 0, sizeof co);
     if (h.ver == DTLS12) co.versionFlag = SSL_FLAGS_DTLS | SSL_FLAGS_TLS_1_2;
     else { psProtocolVersion_t v[1] = { ver_bit(h.ver) }; rc = API(matrixSslSessOptsSetClientTlsVersions(&co, v, 1)); if (rc < 0) return false; }
     if (h.tickets) co.ticketResumption = 1;
+    if (h.ver == TLS13 && set_groups(&co, h.group, true) < 0) return false;
     if (h.exts) {
         rc = API(matrixSslNewHelloExtension(&cn.ext, NULL));
         if (rc < 0) { outcome("NewHelloExtension=%d;", rc); cn.ext = nullptr; return false; }
@@ -292,12 +303,13 @@ static bool open_pair(Conn &cn, const HsCfg &h, int ext_delete_early) {
         if (rc < 0) { outcome("CreateSNIext=%d;", rc); return false; }
         if (!e || el <= 0) { viol("c19:success-with-null-object", "matrixSslCreateSNIext returned %d but ext=%p len=%d", rc, (void *) e, el); return false; }
         rc = API(matrixSslLoadHelloExtension(cn.ext, e, (uint32) el, EXT_SNI));
-        API(free(e));   // psFree(ext, NULL) in the documented usage
+        free(e);   // psFree(ext, NULL) in the documented usage
         if (rc < 0) { outcome("LoadHelloExtension=%d;", rc); return false; }
-        static unsigned char custom[40]; memset(custom, 0x5a, sizeof custom);
-        rc = API(matrixSslLoadHelloExtension(cn.ext, custom, sizeof custom, 0xff33));
-        if (rc < 0) { outcome("LoadHelloExtension2=%d;", rc); return false; }
-        co.maxFragLen = 0;
+        if (h.ver != TLS13) {   // TLS 1.3 ClientHello accepts only SNI/ALPN user extensions
+            static unsigned char custom[40]; memset(custom, 0x5a, sizeof custom);
+            rc = API(matrixSslLoadHelloExtension(cn.ext, custom, sizeof custom, 0xff33));
+            if (rc < 0) { outcome("LoadHelloExtension2=%d;", rc); return false; }
+        }
     }
     psCipher16_t cs[1] = { h.suite };
     cn.c.sel();
@@ -333,7 +345,7 @@ static bool ended_with_error(Conn &cn) { return cn.c.failed || cn.s.failed || cn
 
 static HsCfg cfg_of(const Scn &s, sslKeys_t *ck, sslKeys_t *sk, int hs, sslSessionId_t *sid, bool good_name) {
     HsCfg h; h.ver = s.ver; h.suite = s.suite; h.ck = ck; h.sk = sk; h.cauth = (hs == H_CAUTH); h.sid = sid;
-    h.name = good_name ? "localhost" : "wronghost.example"; h.tickets = (hs == H_RESUME_TICKET || s.hs == H_RESUME_TICKET); h.exts = s.exts;
+    h.name = good_name ? "localhost" : "wronghost.example"; h.tickets = (hs == H_RESUME_TICKET || s.hs == H_RESUME_TICKET); h.exts = s.exts; h.group = s.group;
     return h;
 }
 
@@ -349,18 +361,18 @@ static void exchange(Conn &cn, bool dtls) {
 }
 
 // Fault-free usability handshake (full, then for TLS<=1.2 id-resumed) on the given keys.
-static bool usable_pair(const Scn &s, sslKeys_t *ck, sslKeys_t *sk, const char *what) {
+static bool usable_pair(const Scn &s, sslKeys_t *ck, sslKeys_t *sk, const char *what, bool cauth = false, const char *sig = "c19:unusable-after-fault") {
     if (!ck || !sk) return true;
     vfh_entropy_reset(7777); vfh_clock_set_ms(5000000);
     Scn u = s; u.exts = false;
     sslSessionId_t *sid = nullptr;
     bool resumable = (s.ver != TLS13);
-    if (resumable && API(matrixSslNewSessionId(&sid, NULL)) < 0) { viol("c19:unusable-after-fault", "%s: matrixSslNewSessionId fails without fault", what); return false; }
+    if (resumable && API(matrixSslNewSessionId(&sid, NULL)) < 0) { viol(sig, "%s: matrixSslNewSessionId fails without fault", what); return false; }
     bool ok = true;
     for (int round = 0; round < (resumable ? 2 : 1) && ok; round++) {
-        Conn cn; HsCfg h = cfg_of(u, ck, sk, s.hs == H_CAUTH ? H_CAUTH : H_FULL, sid, true); h.tickets = false;
+        Conn cn; HsCfg h = cfg_of(u, ck, sk, cauth ? H_CAUTH : H_FULL, sid, true); h.tickets = false; if (h.group == 2) h.group = 0;
         if (!open_pair(cn, h, 0) || !handshake(cn)) {
-            viol("c19:unusable-after-fault", "%s: fault-free %s handshake on the same keys does not complete after the faulted scenario (client err %d alert %d, server err %d alert %d)",
+            viol(sig, "%s: fault-free %s handshake on the same keys does not complete after the faulted scenario (client err %d alert %d, server err %d alert %d)",
                  what, round ? "resumed" : "full", cn.c.first_err, cn.c.fatal_alert, cn.s.first_err, cn.s.fatal_alert);
             ok = false;
         } else if (round == 1) outcome("post-resumed=%d;", (int) API(matrixSslIsResumedSession(cn.c.ssl)));
@@ -385,10 +397,6 @@ static void run_hs(const Scn &s) {
             prime_ok = open_pair(p, h, 0) && handshake(p);
             if (prime_ok && s.ver == TLS13) settle(p);   // NewSessionTicket
             outcome("prime=%d;", prime_ok);
-            if (prime_ok && s.cred == BAD_MASTER) {
-                // the client's stored resumption secret does not match the server's any more
-                unsigned char *ms = (unsigned char *) sid; (void) ms;
-            }
             p.close_all(s.order);
         }
         g_shm->prime = facts_sub(facts_now(), f0);
@@ -440,15 +448,20 @@ static void run_load(const Scn &s) {
     if (!k) { viol("c19:success-with-null-object", "matrixSslNewKeys returned %d with NULL keys", rc); return; }
     std::string cert, key, ca; bool expect_fail = false; bool server = true; int partner = -1; Scn hsS = s; hsS.ver = TLS12; hsS.hs = H_FULL; hsS.exts = false;
     switch (s.sub) {
-    case 0: cert = pki("srv_rsa.pem"); key = pki("srv_rsa.key"); ca = pki("ca_rsa.pem"); partner = K_CLI_NOID_RSA; hsS.suite = 0xC02F; break;
+    case 0: cert = pki("srv_rsa.pem"); key = pki("srv_rsa.key"); ca = pki("ca_rsa.pem"); partner = K_CLI_NOID_RSA; break;
     case 1: cert = pki("srv_ec.pem"); key = pki("srv_ec.key"); ca = pki("ca_all.pem"); partner = K_CLI_NOID_EC; hsS.suite = 0xC02B; break;
-    case 2: ca = pki("ca_all.pem"); server = false; partner = K_SRV_RSA; hsS.suite = 0xC02F; break;                        // client trust store with two roots
-    case 3: cert = pki("srv_rsa.pem"); key = pki("srv_ec.key"); ca = pki("ca_rsa.pem"); expect_fail = true; break;        // certificate / private key mismatch
+    case 2: ca = pki("ca_all.pem"); server = false; partner = K_SRV_RSA; hsS.suite = 0x009C; break;                        // client trust store with two roots
+    case 3: cert = pki("srv_rsa.pem"); key = pki("ca_rsa.pem"); ca = pki("ca_rsa.pem"); expect_fail = true; break;        // private key file holds a certificate
+    case 7: expect_fail = true; break;
     case 4: cert = pki("srv_rsa.pem"); key = pki("srv_rsa.key"); ca = pki("ca_rsa.key"); expect_fail = true; break;       // CA file is not a certificate
     default: break;
     }
+    // opts == NULL is the common usage (key type auto-detected); the BAD variants and the ticket-key-delete variants name the key type
+    matrixSslLoadKeysOpts_t lo; memset(&lo, 0, sizeof lo); lo.key_type = (s.sub == 1) ? PS_ECC : PS_RSA;
+    matrixSslLoadKeysOpts_t *lop = (expect_fail || s.order || s.sub == 7) ? &lo : NULL;
     if (s.sub <= 4) {
-        rc = API(matrixSslLoadKeys(k, cert.empty() ? NULL : cert.c_str(), key.empty() ? NULL : key.c_str(), NULL, ca.empty() ? NULL : ca.c_str(), NULL));
+        if (s.sub == 0) hsS.suite = s.order ? 0x002F : 0x009C;   // cheap usability handshakes (RSA key transport)
+        rc = API(matrixSslLoadKeys(k, cert.empty() ? NULL : cert.c_str(), key.empty() ? NULL : key.c_str(), NULL, ca.empty() ? NULL : ca.c_str(), lop));
         outcome("LoadKeys=%d;", rc);
         if (rc >= 0 && expect_fail) viol("c19:bad-credential-load-succeeded", "%s: matrixSslLoadKeys returned %d for unusable key material", s.name.c_str(), rc);
         if (rc >= 0 && !expect_fail && server) {
@@ -456,12 +469,15 @@ static void run_load(const Scn &s) {
             outcome("LoadTicketKeys=%d;", r2);
             if (r2 >= 0 && s.order) { unsigned char nm[16]; memcpy(nm, TICKET_NAME, 16); r2 = API(matrixSslDeleteSessionTicketKey(k, nm)); outcome("DeleteTicketKey=%d;", r2); }
         }
-    } else if (s.sub == 5) {
-        // memory variant + PSKs
-        Bytes c, p, a; file_bytes(pki("srv_rsa.pem"), c); file_bytes(pki("srv_rsa.key"), p); file_bytes(pki("ca_rsa.pem"), a);
-        rc = API(matrixSslLoadKeysMem(k, c.data(), (int32) c.size(), p.data(), (int32) p.size(), a.data(), (int32) a.size(), NULL));
+    } else if (s.sub == 5 || s.sub == 7) {
+        // memory variant with a two-certificate chain (leaf + issuer: chain and key/certificate match are verified at load time) + PSK;
+        // sub 7: the private key belongs to another certificate => must be refused.  PEM buffers are NUL-terminated (the decoder uses strstr).
+        Bytes c, p, a; file_bytes(pki("srv_rsa.pem"), c); file_bytes(pki("ca_rsa.pem"), c); file_bytes(pki(s.sub == 7 ? "cli_rsa.key" : "srv_rsa.key"), p); file_bytes(pki("ca_rsa.pem"), a);
+        c.push_back(0); p.push_back(0); a.push_back(0);
+        rc = API(matrixSslLoadKeysMem(k, c.data(), (int32) c.size() - 1, p.data(), (int32) p.size() - 1, a.data(), (int32) a.size() - 1, lop));
         outcome("LoadKeysMem=%d;", rc);
-        partner = K_CLI_NOID_RSA; hsS.suite = 0xC02F;
+        if (rc >= 0 && expect_fail) viol("c19:bad-credential-load-succeeded", "%s: matrixSslLoadKeysMem returned %d for a private key that does not match the certificate", s.name.c_str(), rc);
+        partner = K_CLI_NOID_RSA; hsS.suite = 0x009C;
         if (rc >= 0) { int32 r2 = API(matrixSslLoadPsk(k, PSK_KEY, 16, PSK_ID, 8)); outcome("LoadPsk=%d;", r2); if (r2 < 0) rc = r2; }
     } else if (s.sub == 6) {
         rc = API(matrixSslLoadPsk(k, PSK_KEY, 16, PSK_ID, 8)); outcome("LoadPsk=%d;", rc);
@@ -473,7 +489,9 @@ static void run_load(const Scn &s) {
     g_shm->n_alloc_scn = c19_alloc_count();
     // a load that reported success must have produced fully working keys, whatever failed inside
     if (rc >= 0 && !expect_fail && partner >= 0) {
-        if (server) usable_pair(hsS, g_keys[partner], k, "keys loaded under fault"); else usable_pair(hsS, k, g_keys[partner], "trust store loaded under fault");
+        const char *sg = "c19:load-reported-success-but-keys-unusable";
+        if (server) usable_pair(hsS, g_keys[partner], k, "the load call reported success, but the server identity it loaded", false, sg);
+        else usable_pair(hsS, k, g_keys[partner], "the load call reported success, but the trust store it loaded", false, sg);
     }
     API(matrixSslDeleteKeys(k));
 }
@@ -505,71 +523,74 @@ static void run_scenario(const Scn &s) {
     switch (s.kind) { case SC_LOAD: run_load(s); break; case SC_SESS: run_sess(s); break; default: run_hs(s); break; }
 }
 
-static void add_hs(const char *nm, int ver, uint16_t suite, int ck, int sk, int hs, int cred, bool data, int order, bool exts, int gck, int gsk, int pmtu = 0) {
-    Scn s; s.kind = SC_HS; s.sub = 0; s.ver = ver; s.suite = suite; s.ckey = ck; s.skey = sk; s.hs = hs; s.cred = cred; s.data = data; s.order = order; s.exts = exts; s.pmtu = pmtu; s.gck = gck; s.gsk = gsk;
+static void add_hs(const char *nm, int ver, uint16_t suite, int ck, int sk, int hs, int cred, bool data, int order, bool exts, int gck, int gsk, int group = 0, int pmtu = 0) {
+    Scn s; s.kind = SC_HS; s.sub = 0; s.ver = ver; s.suite = suite; s.ckey = ck; s.skey = sk; s.hs = hs; s.cred = cred; s.data = data; s.order = order; s.exts = exts; s.pmtu = pmtu; s.gck = gck; s.gsk = gsk; s.group = group;
     s.name = fmt("hs/%s/%s/%s/%s%s%s", ver_name[ver], nm, hs_name[hs], cred_name[cred], data ? "+data" : "", exts ? "+ext" : "");
     g_scn.push_back(s);
 }
 static void build_scenarios() {
     // NOTE: append only - the scenario number is part of every replay tape.
-    static const char *ln[] = { "rsa-identity+ca", "ec-identity+2ca", "client-trust-store", "BAD:cert-key-mismatch", "BAD:ca-not-a-cert", "mem-rsa+psk", "psk-only" };
-    for (int i = 0; i < 7; i++) for (int o = 0; o < (i < 2 ? 2 : 1); o++) {
-        Scn s; s.kind = SC_LOAD; s.sub = i; s.ver = TLS12; s.suite = 0; s.ckey = s.skey = 0; s.hs = H_FULL; s.cred = (i == 3 || i == 4) ? BAD_CA : GOOD; s.data = false; s.order = o; s.exts = false; s.pmtu = 0; s.gck = s.gsk = -1;
+    static const char *ln[] = { "rsa-identity+ca", "ec-identity+2ca", "client-trust-store", "BAD:key-file-is-a-cert", "BAD:ca-not-a-cert", "mem-rsa-chain+psk", "psk-only", "BAD:mem-chain-key-mismatch" };
+    for (int i = 0; i < 8; i++) for (int o = 0; o < (i < 2 ? 2 : 1); o++) {
+        Scn s; s.kind = SC_LOAD; s.sub = i; s.ver = TLS12; s.suite = 0; s.ckey = s.skey = 0; s.hs = H_FULL; s.cred = (i == 3 || i == 4 || i == 7) ? BAD_CA : GOOD; s.data = false; s.order = o; s.exts = false; s.pmtu = 0; s.gck = s.gsk = -1; s.group = 0;
         s.name = fmt("load/%s%s", ln[i], o ? "+ticketkey-delete" : ""); g_scn.push_back(s);
     }
-    struct { int ver; uint16_t suite; int ck, sk, hs; int sub; int order; } ss[] = {
-        { TLS12, 0xC02F, K_CLI_NOID_RSA, K_SRV_RSA, H_FULL, 0, 0 }, { TLS12, 0xC02F, K_CLI_RSA, K_SRV_RSA, H_CAUTH, 1, 3 },
-        { TLS13, 0x1301, K_CLI_NOID_RSA, K_SRV_RSA, H_FULL, 0, 2 }, { TLS13, 0x1301, K_CLI_RSA, K_SRV_RSA, H_CAUTH, 1, 1 },
-        { DTLS12, 0xC02B, K_CLI_NOID_EC, K_SRV_EC, H_FULL, 1, 4 }, { TLS11, 0x002F, K_CLI_NOID_RSA, K_SRV_RSA, H_FULL, 1, 5 },
-        { TLS12, 0x008C, K_CLI_PSK, K_SRV_PSK, H_FULL, 1, 0 },
+    struct { int ver; uint16_t suite; int ck, sk, hs; int sub; int order; int group; } ss[] = {
+        { TLS12, 0xC02F, K_CLI_NOID_RSA, K_SRV_RSA, H_FULL, 0, 0, 0 }, { TLS12, 0x009C, K_CLI_RSA, K_SRV_RSA, H_CAUTH, 1, 3, 0 },
+        { TLS13, 0x1301, K_CLI_NOID_RSA, K_SRV_RSA, H_FULL, 0, 2, 1 }, { TLS13, 0x1301, K_CLI_RSA, K_SRV_RSA, H_CAUTH, 1, 1, 0 },
+        { DTLS12, 0xC02B, K_CLI_NOID_EC, K_SRV_EC, H_FULL, 1, 4, 0 }, { TLS11, 0x002F, K_CLI_NOID_RSA, K_SRV_RSA, H_FULL, 1, 5, 0 },
+        { TLS12, 0x008C, K_CLI_PSK, K_SRV_PSK, H_FULL, 1, 0, 0 },
     };
     for (auto &x : ss) {
-        Scn s; s.kind = SC_SESS; s.sub = x.sub; s.ver = x.ver; s.suite = x.suite; s.ckey = x.ck; s.skey = x.sk; s.hs = x.hs; s.cred = GOOD; s.data = false; s.order = x.order; s.exts = true; s.pmtu = 0; s.gck = x.ck; s.gsk = x.sk;
+        Scn s; s.kind = SC_SESS; s.sub = x.sub; s.ver = x.ver; s.suite = x.suite; s.ckey = x.ck; s.skey = x.sk; s.hs = x.hs; s.cred = GOOD; s.data = false; s.order = x.order; s.exts = true; s.pmtu = 0; s.gck = x.ck; s.gsk = x.sk; s.group = x.group;
         s.name = fmt("session/%s/%04x/%s/%s/order%d", ver_name[x.ver], x.suite, hs_name[x.hs], x.sub ? "hello-delivered" : "new-delete", x.order); g_scn.push_back(s);
     }
-    // handshakes, good credentials
-    add_hs("ecdhe-rsa-gcm", TLS12, 0xC02F, K_CLI_NOID_RSA, K_SRV_RSA, H_FULL, GOOD, true, 0, true, K_CLI_NOID_RSA, K_SRV_RSA);
-    add_hs("rsa-cbc-sha", TLS12, 0x002F, K_CLI_NOID_RSA, K_SRV_RSA, H_FULL, GOOD, false, 1, false, K_CLI_NOID_RSA, K_SRV_RSA);
-    add_hs("ecdhe-ecdsa-gcm", TLS12, 0xC02B, K_CLI_NOID_EC, K_SRV_EC, H_FULL, GOOD, false, 2, false, K_CLI_NOID_EC, K_SRV_EC);
+    const int R = K_CLI_NOID_RSA, E = K_CLI_NOID_EC, SR = K_SRV_RSA, SE = K_SRV_EC;
+    // handshakes, good credentials.  Elliptic-curve arithmetic costs ~2600 allocations per scalar multiplication, so most
+    // variants use RSA key transport / PSK / x25519 and a few scenarios carry the ECDHE / ECDSA paths.
+    add_hs("ecdhe-rsa-gcm", TLS12, 0xC02F, R, SR, H_FULL, GOOD, true, 0, true, R, SR);
+    add_hs("rsa-cbc-sha", TLS12, 0x002F, R, SR, H_FULL, GOOD, false, 1, false, R, SR);
+    add_hs("ecdhe-ecdsa-gcm", TLS12, 0xC02B, E, SE, H_FULL, GOOD, false, 2, false, E, SE);
     add_hs("psk-cbc-sha", TLS12, 0x008C, K_CLI_PSK, K_SRV_PSK, H_FULL, GOOD, true, 3, false, K_CLI_PSK, K_SRV_PSK);
-    add_hs("ecdhe-rsa-gcm", TLS12, 0xC02F, K_CLI_RSA, K_SRV_RSA, H_CAUTH, GOOD, false, 0, false, K_CLI_RSA, K_SRV_RSA);
-    add_hs("ecdhe-ecdsa-cbc", TLS12, 0xC023, K_CLI_EC, K_SRV_EC, H_CAUTH, GOOD, false, 1, false, K_CLI_EC, K_SRV_EC);
-    add_hs("ecdhe-rsa-gcm", TLS12, 0xC02F, K_CLI_NOID_RSA, K_SRV_RSA, H_RESUME_ID, GOOD, true, 0, false, K_CLI_NOID_RSA, K_SRV_RSA);
-    add_hs("ecdhe-ecdsa-gcm", TLS12, 0xC02B, K_CLI_NOID_EC, K_SRV_EC, H_RESUME_TICKET, GOOD, false, 1, false, K_CLI_NOID_EC, K_SRV_EC);
-    add_hs("ecdhe-rsa-cbc-sha", TLS11, 0xC013, K_CLI_NOID_RSA, K_SRV_RSA, H_FULL, GOOD, true, 1, false, K_CLI_NOID_RSA, K_SRV_RSA);
-    add_hs("rsa-cbc-sha", TLS11, 0x002F, K_CLI_RSA, K_SRV_RSA, H_CAUTH, GOOD, false, 0, false, K_CLI_RSA, K_SRV_RSA);
-    add_hs("rsa-cbc-sha", TLS11, 0x002F, K_CLI_NOID_RSA, K_SRV_RSA, H_RESUME_ID, GOOD, false, 1, false, K_CLI_NOID_RSA, K_SRV_RSA);
-    add_hs("aes128-gcm/rsa-cert", TLS13, 0x1301, K_CLI_NOID_RSA, K_SRV_RSA, H_FULL, GOOD, true, 0, true, K_CLI_NOID_RSA, K_SRV_RSA);
-    add_hs("chacha/ec-cert", TLS13, 0x1303, K_CLI_NOID_EC, K_SRV_EC, H_FULL, GOOD, false, 1, false, K_CLI_NOID_EC, K_SRV_EC);
-    add_hs("aes128-gcm/ec-cert", TLS13, 0x1301, K_CLI_EC, K_SRV_EC, H_CAUTH, GOOD, false, 0, false, K_CLI_EC, K_SRV_EC);
-    add_hs("aes256-gcm/rsa-cert", TLS13, 0x1302, K_CLI_RSA, K_SRV_RSA, H_CAUTH, GOOD, false, 1, false, K_CLI_RSA, K_SRV_RSA);
-    add_hs("aes128-gcm/ec-cert", TLS13, 0x1301, K_CLI_NOID_EC, K_SRV_EC, H_RESUME_TICKET, GOOD, true, 0, false, K_CLI_NOID_EC, K_SRV_EC);
-    add_hs("ecdhe-rsa-gcm", DTLS12, 0xC02F, K_CLI_NOID_RSA, K_SRV_RSA, H_FULL, GOOD, true, 0, false, K_CLI_NOID_RSA, K_SRV_RSA, 400);
-    add_hs("ecdhe-ecdsa-gcm", DTLS12, 0xC02B, K_CLI_EC, K_SRV_EC, H_CAUTH, GOOD, false, 1, false, K_CLI_EC, K_SRV_EC);
-    add_hs("ecdhe-ecdsa-gcm", DTLS12, 0xC02B, K_CLI_NOID_EC, K_SRV_EC, H_RESUME_ID, GOOD, false, 0, false, K_CLI_NOID_EC, K_SRV_EC);
+    add_hs("rsa-cbc-sha256", TLS12, 0x003C, K_CLI_RSA, SR, H_CAUTH, GOOD, true, 0, false, K_CLI_RSA, SR);
+    add_hs("rsa-gcm", TLS12, 0x009C, R, SR, H_RESUME_ID, GOOD, true, 0, false, R, SR);
+    add_hs("rsa-cbc-sha", TLS12, 0x002F, R, SR, H_RESUME_TICKET, GOOD, false, 1, false, R, SR);
+    add_hs("rsa-cbc-sha256", TLS11, 0x0035, R, SR, H_FULL, GOOD, true, 1, false, R, SR);
+    add_hs("rsa-cbc-sha", TLS11, 0x002F, K_CLI_RSA, SR, H_CAUTH, GOOD, false, 0, false, K_CLI_RSA, SR);
+    add_hs("rsa-cbc-sha", TLS11, 0x002F, R, SR, H_RESUME_ID, GOOD, false, 1, false, R, SR);
+    add_hs("aes128-gcm/rsa-cert/x25519", TLS13, 0x1301, R, SR, H_FULL, GOOD, true, 0, true, R, SR, 1);
+    add_hs("chacha/ec-cert/p256", TLS13, 0x1303, E, SE, H_FULL, GOOD, false, 1, false, E, SE, 0);
+    add_hs("aes256-gcm/rsa-cert/x25519", TLS13, 0x1302, K_CLI_RSA, SR, H_CAUTH, GOOD, false, 1, false, K_CLI_RSA, SR, 1);
+    add_hs("aes128-gcm/rsa-cert/x25519", TLS13, 0x1301, R, SR, H_RESUME_TICKET, GOOD, true, 0, false, R, SR, 1);
+    add_hs("aes128-gcm/rsa-cert/hello-retry", TLS13, 0x1301, R, SR, H_FULL, GOOD, false, 0, false, R, SR, 2);
+    add_hs("ecdhe-rsa-gcm", DTLS12, 0xC02F, R, SR, H_FULL, GOOD, true, 0, false, R, SR, 0, 400);
+    add_hs("rsa-gcm", DTLS12, 0x009C, K_CLI_RSA, SR, H_CAUTH, GOOD, false, 1, false, K_CLI_RSA, SR, 0, 300);
+    add_hs("rsa-cbc-sha", DTLS12, 0x002F, R, SR, H_RESUME_ID, GOOD, true, 0, false, R, SR);
     add_hs("psk-cbc-sha", DTLS12, 0x008C, K_CLI_PSK, K_SRV_PSK, H_FULL, GOOD, true, 1, false, K_CLI_PSK, K_SRV_PSK);
     // handshakes, bad credentials: must never complete under any fault pattern
-    add_hs("ecdhe-rsa-gcm", TLS12, 0xC02F, K_CLI_NOID_OTHER, K_SRV_RSA, H_FULL, BAD_CA, false, 0, false, K_CLI_NOID_RSA, K_SRV_OTHER);
-    add_hs("ecdhe-rsa-gcm", TLS12, 0xC02F, K_CLI_NOID_RSA, K_SRV_OTHER, H_FULL, BAD_CA, false, 1, true, K_CLI_NOID_OTHER, K_SRV_RSA);
-    add_hs("ecdhe-rsa-gcm", TLS12, 0xC02F, K_CLI_NOID_RSA, K_SRV_RSA, H_FULL, BAD_NAME, false, 0, false, K_CLI_NOID_RSA, K_SRV_RSA);
-    add_hs("rsa-cbc-sha", TLS12, 0x002F, K_CLI_NOID_RSA, K_SRV_OTHER, H_FULL, BAD_CA, false, 0, false, K_CLI_NOID_OTHER, K_SRV_RSA);
-    add_hs("ecdhe-ecdsa-gcm", TLS12, 0xC02B, K_CLI_NOID_EC, K_SRV_EC, H_FULL, BAD_NAME, false, 1, false, K_CLI_NOID_EC, K_SRV_EC);
-    add_hs("psk-cbc-sha", TLS12, 0x008C, K_CLI_PSK_BAD, K_SRV_PSK, H_FULL, BAD_PSK, false, 0, false, K_CLI_PSK, K_SRV_PSK);
-    add_hs("ecdhe-rsa-gcm", TLS12, 0xC02F, K_CLI_RSA, K_SRV_RSA_TRUST_OTHER, H_CAUTH, BAD_CLIENT_CERT, false, 0, false, K_CLI_NOID_RSA, K_SRV_RSA);
-    add_hs("ecdhe-rsa-cbc-sha", TLS11, 0xC013, K_CLI_NOID_RSA, K_SRV_OTHER, H_FULL, BAD_CA, false, 0, false, K_CLI_NOID_OTHER, K_SRV_RSA);
-    add_hs("aes128-gcm/rsa-cert", TLS13, 0x1301, K_CLI_NOID_RSA, K_SRV_OTHER, H_FULL, BAD_CA, false, 0, false, K_CLI_NOID_OTHER, K_SRV_RSA);
-    add_hs("aes128-gcm/rsa-cert", TLS13, 0x1301, K_CLI_NOID_RSA, K_SRV_RSA, H_FULL, BAD_NAME, false, 1, true, K_CLI_NOID_RSA, K_SRV_RSA);
-    add_hs("aes128-gcm/rsa-cert", TLS13, 0x1301, K_CLI_RSA, K_SRV_RSA_TRUST_OTHER, H_CAUTH, BAD_CLIENT_CERT, false, 0, false, K_CLI_NOID_RSA, K_SRV_RSA);
-    add_hs("ecdhe-rsa-gcm", DTLS12, 0xC02F, K_CLI_NOID_RSA, K_SRV_OTHER, H_FULL, BAD_CA, false, 0, false, K_CLI_NOID_OTHER, K_SRV_RSA);
-    add_hs("ecdhe-ecdsa-gcm", DTLS12, 0xC02B, K_CLI_NOID_EC, K_SRV_EC, H_FULL, BAD_NAME, false, 1, false, K_CLI_NOID_EC, K_SRV_EC);
+    add_hs("ecdhe-rsa-gcm", TLS12, 0xC02F, K_CLI_NOID_OTHER, SR, H_FULL, BAD_CA, false, 0, false, R, K_SRV_OTHER);       // client trusts a different root
+    add_hs("rsa-cbc-sha", TLS12, 0x002F, R, K_SRV_OTHER, H_FULL, BAD_CA, false, 1, true, K_CLI_NOID_OTHER, SR);          // server presents srv_other (signed by ca_other)
+    add_hs("rsa-gcm", TLS12, 0x009C, R, SR, H_FULL, BAD_NAME, false, 0, false, R, SR);
+    add_hs("ecdhe-ecdsa-gcm", TLS12, 0xC02B, E, SE, H_FULL, BAD_NAME, false, 1, false, E, SE);
+    add_hs("psk-cbc-sha", TLS12, 0x008C, K_CLI_PSK_BAD, K_SRV_PSK, H_FULL, BAD_PSK, false, 0, false, K_CLI_PSK, -1);
+    add_hs("rsa-cbc-sha256", TLS12, 0x003C, K_CLI_RSA, K_SRV_RSA_TRUST_OTHER, H_CAUTH, BAD_CLIENT_CERT, false, 0, false, R, SR);
+    add_hs("rsa-cbc-sha", TLS11, 0x002F, R, K_SRV_OTHER, H_FULL, BAD_CA, false, 0, false, K_CLI_NOID_OTHER, SR);
+    add_hs("aes128-gcm/rsa-cert/x25519", TLS13, 0x1301, R, K_SRV_OTHER, H_FULL, BAD_CA, false, 0, false, K_CLI_NOID_OTHER, SR, 1);
+    add_hs("aes128-gcm/rsa-cert/x25519", TLS13, 0x1301, R, SR, H_FULL, BAD_NAME, false, 1, true, R, SR, 1);
+    add_hs("aes128-gcm/rsa-cert/x25519", TLS13, 0x1301, K_CLI_RSA, K_SRV_RSA_TRUST_OTHER, H_CAUTH, BAD_CLIENT_CERT, false, 0, false, R, SR, 1);
+    add_hs("chacha/ec-cert/p256", TLS13, 0x1303, K_CLI_NOID_RSA, SE, H_FULL, BAD_CA, false, 0, false, E, SR, 0);           // EC chain, client trusts only the RSA root
+    add_hs("rsa-gcm", DTLS12, 0x009C, R, K_SRV_OTHER, H_FULL, BAD_CA, false, 0, false, K_CLI_NOID_OTHER, SR);
+    add_hs("rsa-cbc-sha", DTLS12, 0x002F, R, SR, H_FULL, BAD_NAME, false, 1, false, R, SR);
 }
 
 // ------------------------------------------------------------------------------------------------ child
 static void child_death() {}
-static void child_main(const Scn &s, int mode, uint64_t k) {
+static void child_main(const Scn &s, int mode, uint64_t k, uint64_t trace_seq) {
     g_child = true;
     memset(&g_facts, 0, sizeof g_facts);
+    c19_set_log(g_shm->flog, &g_shm->n_fault);   // the fault log lives in shared memory: it must survive a crash of this process
     c19_reset();
+    c19_trace_seq(trace_seq);
     vfh_entropy_reset(4242); vfh_clock_set_ms(1000000);
     if (s.pmtu) matrixDtlsSetPmtu(s.pmtu);
     if (mode == M_SINGLE) c19_plan(1, k, 0, 1);
@@ -582,17 +603,16 @@ static void child_main(const Scn &s, int mode, uint64_t k) {
     run_scenario(s);
     c19_plan_off();
     if (s.kind != SC_LOAD) g_shm->n_alloc_scn = c19_alloc_count();
-    g_shm->n_fault = c19_fault_count();
-    memcpy(g_shm->flog, c19_fault_log(), sizeof g_shm->flog);
     if (mode == M_NONE) {
         uint64_t n = std::min<uint64_t>(g_shm->n_alloc_scn, SITES_MAX);
-        memcpy(g_shm->sites, c19_sites(), n * sizeof(void *)); memcpy(g_shm->sizes, c19_sizes(), n * sizeof(uint32_t)); g_shm->n_sites = (uint32_t) n;
+        memcpy(g_shm->sites, c19_sites(), n * sizeof(void *)); memcpy(g_shm->sizes, c19_sizes(), n * sizeof(uint32_t)); memcpy(g_shm->ctxs, c19_ctxs(), n * sizeof(uint32_t)); g_shm->n_sites = (uint32_t) n;
     }
     // the library must still be usable with the same keys
     if (!g_shm->sig[0] && s.kind != SC_LOAD) {
         Facts f2 = facts_now();
-        usable_pair(s, g_keys[s.ckey], g_keys[s.gsk], "client keys");
-        if (s.gck != s.ckey || s.gsk != s.skey) usable_pair(s, g_keys[s.gck], g_keys[s.skey], "server keys");
+        bool ca = (s.hs == H_CAUTH && s.cred == GOOD);
+        if (s.gsk >= 0) usable_pair(s, g_keys[s.ckey], g_keys[s.gsk], "client keys", ca);
+        if (s.gck >= 0 && (s.gck != s.ckey || s.gsk != s.skey)) usable_pair(s, g_keys[s.gck], g_keys[s.skey], "server keys", false);
         g_shm->post = facts_sub(facts_now(), f2);
     }
     // the application deletes everything it owns; nothing allocated inside an armed window may stay live
@@ -602,41 +622,48 @@ static void child_main(const Scn &s, int mode, uint64_t k) {
     g_shm->live_total = c19_live_count();
     g_shm->n_live = (uint32_t) c19_live_dump(g_shm->live, 96);
     g_shm->ledger_overflow = c19_ledger_overflow();
+    g_shm->trace = *c19_trace();
     g_shm->done = 1;
 }
 
 // ------------------------------------------------------------------------------------------------ parent
-struct SiteInfo { std::string fn, file; int line; bool lib, math; };
+struct SiteInfo { std::string fn, file; int line; bool lib, bulk; };
 static std::map<void *, SiteInfo> g_sites;
 static const SiteInfo &site(void *pc) {
     auto it = g_sites.find(pc);
     if (it != g_sites.end()) return it->second;
     char buf[1024]; buf[0] = 0;
     __sanitizer_symbolize_pc((char *) pc - 1, "%f|%s|%l", buf, sizeof buf);
-    SiteInfo si; si.line = 0; si.lib = si.math = false;
+    SiteInfo si; si.line = 0; si.lib = si.bulk = false;
     std::string b(buf); size_t a = b.find('|'), c = b.rfind('|');
     if (a != std::string::npos && c != std::string::npos && c > a) { si.fn = b.substr(0, a); si.file = b.substr(a + 1, c - a - 1); si.line = atoi(b.c_str() + c + 1); }
     else si.fn = b;
     size_t p;
     for (const char *d : { "/matrixssl/", "/crypto/", "/core/" }) if ((p = si.file.rfind(d)) != std::string::npos) { si.lib = true; si.file = si.file.substr(p + 1); break; }
-    si.math = si.lib && (si.file.find("crypto/math/") == 0);
+    // "bulk" class: bignum / EC point temporaries, thousands of identical allocations per scalar multiplication
+    si.bulk = si.lib && (si.file.find("crypto/math/") == 0 || si.file == "crypto/pubkey/ecc_math.c");
     return g_sites[pc] = si;
 }
 static std::string site_str(void *pc) { if (!pc) return "?"; const SiteInfo &s = site(pc); return fmt("%s %s:%d", s.fn.c_str(), s.file.c_str(), s.line); }
-static std::string stack_str(void *const *st, int from = 0) {
-    std::string r; for (int i = from; i < C19_STACK && st[i]; i++) { const SiteInfo &s = site(st[i]); if (!s.lib && i > 0) break; if (!r.empty()) r += " < "; r += fmt("%s:%d", s.fn.c_str(), s.line); } return r;
+static std::string stack_str(const c19_fault_t &f, int from = 0) {
+    std::string r; for (int i = from; i < f.depth && i < C19_STACK; i++) { const SiteInfo &s = site(f.stack[i]); if (!s.lib) break; if (!r.empty()) r += " < "; r += fmt("%s:%d", s.fn.c_str(), s.line); } return r;
+}
+// first frame of the failing allocation's stack that is outside the bignum/EC bulk code: the function whose error handling is exercised
+static std::string owner_fn(const c19_fault_t &f) {
+    for (int i = 0; i < f.depth && i < C19_STACK; i++) { const SiteInfo &s = site(f.stack[i]); if (!s.lib) break; if (!s.bulk) return s.fn; }
+    return f.depth ? site(f.stack[0]).fn : "?";
 }
 
-struct Base { bool have = false; bool bad = false; std::string err; uint64_t N = 0; std::vector<uint8_t> math; std::vector<void *> sites; std::map<void *, unsigned> live; uint64_t live_total = 0;
-              Facts prime, main_, post; int main_complete = 0, main_resumed = 0; std::string outcome; uint64_t dc = 0, ds = 0; };
+struct Base { bool have = false; bool bad = false; std::string err; uint64_t N = 0; std::vector<uint8_t> bulk; std::vector<uint32_t> rank, ctx; std::vector<void *> sites; std::map<void *, unsigned> live; uint64_t live_total = 0;
+              size_t nbulk = 0, nctx = 0; Facts prime, main_, post; int main_complete = 0, main_resumed = 0; std::string outcome; uint64_t dc = 0, ds = 0; };
 static std::vector<Base> g_base;
 static int g_errfd = -1;
-static bool g_quick = false, g_replay = false; static uint64_t g_seed = 1;
+static bool g_quick = false, g_replay = false, g_full = false; static uint64_t g_seed = 1;
 static const char *g_collect = nullptr;
 static std::set<size_t> g_only;   // campaign helper (C19_ONLY=3,7): restrict to some scenarios
 
 struct ChildResult { bool crashed; int status; std::string report; };
-static ChildResult run_child(const Scn &s, int mode, uint64_t k) {
+static ChildResult run_child(const Scn &s, int mode, uint64_t k, uint64_t trace_seq = 0) {
     memset(g_shm, 0, offsetof(Shm, sites));
     if (ftruncate(g_errfd, 0) != 0) {}
     lseek(g_errfd, 0, SEEK_SET);
@@ -645,10 +672,10 @@ static ChildResult run_child(const Scn &s, int mode, uint64_t k) {
     if (pid < 0) { perror("fork"); abort(); }
     if (pid == 0) {
         prctl(PR_SET_PDEATHSIG, SIGKILL);
-        signal(SIGALRM, SIG_DFL); alarm(60);
+        signal(SIGALRM, SIG_DFL); alarm(90);
         __sanitizer_set_death_callback(child_death);
         dup2(g_errfd, 2); dup2(g_errfd, 1);
-        child_main(s, mode, k);
+        child_main(s, mode, k, trace_seq);
         _exit(0);
     }
     int st = 0; while (waitpid(pid, &st, 0) < 0 && errno == EINTR) {}
@@ -672,20 +699,22 @@ static void crash_signature(const ChildResult &r, std::string &sig, std::string 
         else if (kind == "heap-use-after-free") kind = "use-after-free";
     } else if ((p = t.find("runtime error: ")) != std::string::npos) {
         size_t e = t.find('\n', p); std::string m = t.substr(p + 15, e - (p + 15));
-        kind = (m.find("null pointer") != std::string::npos || m.find("null") != std::string::npos) ? "null-deref" : "ubsan"; pos = p; top = m;
+        kind = (m.find("null") != std::string::npos) ? "null-deref" : "ubsan"; pos = p; top = m;
     } else if ((p = t.find("ERROR: LeakSanitizer")) != std::string::npos) { kind = "lsan"; pos = p; }
     else if (WIFSIGNALED(r.status)) kind = WTERMSIG(r.status) == SIGALRM ? "hang" : fmt("signal-%d", WTERMSIG(r.status));
     // frames: "#n 0x... in fn file:line"
     std::string frames; int nf = 0; bool got = false;
     for (p = t.find("    #", pos); p != std::string::npos && nf < 8; p = t.find("    #", p + 1)) {
-        size_t in = t.find(" in ", p), eol = t.find('\n', p); if (in == std::string::npos || in > eol) continue;
+        size_t in = t.find(" in ", p), eol = t.find('\n', p); if (eol == std::string::npos) eol = t.size(); if (in == std::string::npos || in > eol) continue;
         std::string rest = t.substr(in + 4, eol - (in + 4)); size_t sp = rest.find(' ');
         std::string f = rest.substr(0, sp), loc = sp == std::string::npos ? "" : rest.substr(sp + 1);
         bool lib = loc.find("/matrixssl/") != std::string::npos || loc.find("/crypto/") != std::string::npos || loc.find("/core/") != std::string::npos;
-        if (f.find("__wrap_") == 0 || f.find("__interceptor") == 0 || f.find("__asan") == 0 || f.find("__ubsan") == 0 || f == "free" || f == "malloc" || f == "memcpy" || f == "memset" || f == "strlen" || f == "strcpy") continue;
-        size_t sl = loc.rfind('/'); frames += (nf ? " < " : "") + f + " " + (sl == std::string::npos ? loc : loc.substr(sl + 1)); nf++;
-        if (!got && lib) { fn = f; got = true; }
-        if (t.compare(eol + 1, 1, "\n") == 0) break;   // end of the first stack
+        bool skip = f.find("__wrap_") == 0 || f.find("__interceptor") == 0 || f.find("__asan") == 0 || f.find("__ubsan") == 0 || f.find("__sanitizer") == 0 || f == "free" || f == "malloc" || f == "memcpy" || f == "memset" || f == "strlen" || f == "strcpy" || f == "memmove";
+        if (!skip) {
+            size_t sl = loc.rfind('/'); frames += (nf ? " < " : "") + f + " " + (sl == std::string::npos ? loc : loc.substr(sl + 1)); nf++;
+            if (!got && lib) { fn = f; got = true; }
+        }
+        if (eol + 1 < t.size() && t[eol + 1] == '\n') break;   // end of the first stack
     }
     sig = "c19:" + kind + "@" + fn;
     detail = (top.empty() ? "" : top + "; ") + "stack: " + frames;
@@ -699,12 +728,16 @@ static const Base &base_of(size_t si) {
     ChildResult r = run_child(g_scn[si], M_NONE, 0);
     if (r.crashed) { std::string sg, dt; crash_signature(r, sg, dt); b.bad = true; b.err = sg + " in the fault-free run: " + dt; return b; }
     if (g_shm->sig[0]) { b.bad = true; b.err = std::string(g_shm->sig) + " in the fault-free run: " + g_shm->detail; return b; }
-    b.N = g_shm->n_alloc_scn; b.sites.assign(g_shm->sites, g_shm->sites + g_shm->n_sites); b.math.resize(b.sites.size());
+    b.N = g_shm->n_alloc_scn; b.sites.assign(g_shm->sites, g_shm->sites + g_shm->n_sites); b.ctx.assign(g_shm->ctxs, g_shm->ctxs + g_shm->n_sites);
+    b.bulk.resize(b.sites.size()); b.rank.resize(b.sites.size());
+    std::map<uint32_t, uint32_t> seen;
     for (size_t i = 0; i < b.sites.size(); i++) {
-        const SiteInfo &s = site(b.sites[i]); b.math[i] = s.math;
+        const SiteInfo &s = site(b.sites[i]); b.bulk[i] = s.bulk; b.nbulk += s.bulk;
+        b.rank[i] = seen[b.ctx[i]]++;
         if (!s.lib) { b.bad = true; b.err = fmt("c19:harness-allocation-inside-armed-window: allocation #%zu comes from %s %s:%d", i + 1, s.fn.c_str(), s.file.c_str(), s.line); }
     }
-    for (uint32_t i = 0; i < g_shm->n_live; i++) b.live[g_shm->live[i].stack[0]]++;
+    b.nctx = seen.size();
+    for (uint32_t i = 0; i < g_shm->n_live; i++) b.live[g_shm->live[i].site]++;
     b.live_total = g_shm->live_total;
     b.prime = g_shm->prime; b.main_ = g_shm->main_; b.post = g_shm->post; b.main_complete = g_shm->main_complete; b.main_resumed = g_shm->main_resumed; b.outcome = g_shm->outcome;
     b.dc = g_shm->delivered_c; b.ds = g_shm->delivered_s;
@@ -716,6 +749,24 @@ static const Base &base_of(size_t si) {
     return b;
 }
 static bool facts_ge(const Facts &a, const Facts &b) { return a.ver_ok >= b.ver_ok && a.val_ok >= b.val_ok && a.cb_ok >= b.cb_ok; }
+
+// Tier sampling.  Every allocation outside the bulk class is a fault point in every tier.  Bulk-class allocations are ranked
+// by occurrence number within their calling context (call site x stack depth); the first occurrences of every context are
+// always taken, later ones every stride-th (offset by the seed, so different seeds cover different k).
+static bool selected(const Base &b, int mode, uint64_t k) {
+    if (g_full) return mode != M_RANDOM || k < 2000;
+    if (mode == M_RANDOM) { uint64_t per = g_quick ? 12 : 300, lo = (g_seed % 16) * 1024; return k >= lo && k < lo + per; }
+    if (k > b.sites.size()) return true;
+    bool bulk = b.bulk[k - 1]; uint32_t rank = b.rank[k - 1];
+    if (mode == M_SINGLE) {
+        if (!bulk) return true;
+        uint64_t first = g_quick ? 1 : 6, cap = g_quick ? 60 : 2500, stride = std::max<uint64_t>(g_quick ? 5 : 1, (b.nbulk + cap - 1) / cap);
+        return rank < first || (rank + g_seed) % stride == 0;
+    }
+    // sticky: the first fault is the same as in single mode; what differs is that the error path cannot allocate either
+    if (!bulk) return g_quick ? (k + g_seed) % 3 == 0 : true;
+    return g_quick ? (rank == 0 && (b.ctx[k - 1] + g_seed) % 4 == 0) : rank < 2;
+}
 
 static void report(Ctx &c, const std::string &sig, const std::string &detail) {
     if (g_collect) {
@@ -739,24 +790,20 @@ static void prop(Tape &t, Ctx &c) {
         report(c, sg.compare(0, 4, "c19:") == 0 ? sg : "c19:harness-baseline-broken", s.name + ": " + b.err); return;
     }
     if (mode != M_RANDOM) { if (k < 1 || k > b.N) throw Discard{}; }
-    if (!g_replay) {
-        // tier sampling (never applied to --replay)
-        if (mode == M_SINGLE) { if (g_quick && k <= b.math.size() && b.math[k - 1] && (k + g_seed) % 5 != 0) throw Discard{}; }
-        else if (mode == M_STICKY) { if (g_quick ? (k + g_seed) % 8 != 0 : false) throw Discard{}; }
-        else { uint64_t per = g_quick ? 24 : 800; if (k < (g_seed % 16) * 1024 || k >= (g_seed % 16) * 1024 + per) throw Discard{}; }
-    }
+    if (!g_replay && !selected(b, mode, k)) throw Discard{};
     ChildResult r = run_child(s, mode, k);
-    void *fsite = g_shm->n_fault ? g_shm->flog[0].stack[0] : nullptr;
+    const c19_fault_t &f0 = g_shm->flog[0];
+    void *fsite = g_shm->n_fault && f0.depth ? f0.stack[0] : nullptr;
     std::string where = fmt("%s mode=%s k=%llu/%llu faults=%llu first failed allocation: #%llu %s (%llu bytes) via %s", s.name.c_str(), mode_name[mode], (unsigned long long) k, (unsigned long long) b.N,
-                            (unsigned long long) g_shm->n_fault, (unsigned long long) g_shm->flog[0].seq, site_str(fsite).c_str(), (unsigned long long) g_shm->flog[0].size, stack_str(g_shm->flog[0].stack, 1).c_str());
+                            (unsigned long long) g_shm->n_fault, (unsigned long long) f0.seq, site_str(fsite).c_str(), (unsigned long long) f0.size, stack_str(f0, 1).c_str());
     c.count(std::string("mode:") + mode_name[mode]);
     c.count(std::string("kind:") + (s.kind == SC_LOAD ? "load" : s.kind == SC_SESS ? "session" : s.cred == GOOD ? "handshake-good" : "handshake-bad"));
-    if (c.verbose) { fprintf(stderr, "case: %s\n  outcome: %s\n  crashed=%d sig=%s\n", where.c_str(), g_shm->outcome, r.crashed, g_shm->sig);
-        for (int i = 0; i < C19_STACK; i++) fprintf(stderr, "   fault frame %d: %p %s\n", i, g_shm->flog[0].stack[i], g_shm->flog[0].stack[i] ? site_str(g_shm->flog[0].stack[i]).c_str() : ""); }
+    if (c.verbose) fprintf(stderr, "case: %s\n  outcome: %s\n  crashed=%d sig=%s\n", where.c_str(), g_shm->outcome, r.crashed, g_shm->sig);
     if (r.crashed) {
         std::string sg, dt; crash_signature(r, sg, dt);
         if (c.verbose) fprintf(stderr, "%s\n", r.report.c_str());
         c.count("outcome:crash");
+        if (g_shm->n_fault) c.nontrivial(fmt("%zu|%d|%llu|%p", si, mode, (unsigned long long) k, fsite));
         report(c, sg, where + "; " + dt); return;
     }
     if (g_shm->n_fault == 0) { c.count("fault-not-reached"); if (mode != M_RANDOM) report(c, "c19:harness-nondeterminism", where + ": planned fault was never reached (run 0 counted more allocations)"); return; }
@@ -764,8 +811,9 @@ static void prop(Tape &t, Ctx &c) {
     c.nontrivial(fmt("%zu|%d|%llu|%p", si, mode, (unsigned long long) k, fsite));
     c.sample(where + " => " + g_shm->outcome);
     const SiteInfo &fs = site(fsite);
-    c.count(fs.math ? "site:crypto-math" : "site:other");
-    if (g_shm->sig[0]) { c.count("outcome:oracle-violation"); report(c, g_shm->sig, where + "; " + g_shm->detail + "; outcome: " + g_shm->outcome); return; }
+    c.count(fs.bulk ? "site:bulk(bignum/ec)" : "site:other");
+    std::string own = owner_fn(f0);
+    if (g_shm->sig[0]) { c.count("outcome:oracle-violation"); std::string sg = g_shm->sig; if (sg == "c19:unusable-after-fault" || sg == "c19:silent-stall") sg += "@" + own; report(c, sg, where + "; " + g_shm->detail + "; outcome: " + g_shm->outcome); return; }
     // authentication facts of a completing handshake
     if (s.kind == SC_HS) {
         if (g_shm->main_complete) {
@@ -774,19 +822,26 @@ static void prop(Tape &t, Ctx &c) {
             if (!facts_ge(g_shm->main_, need))
                 { report(c, "c19:handshake-completed-with-verification-skipped", where + fmt("; completed with [%s] but the fault-free run needs [%s]", facts_str(g_shm->main_).c_str(), facts_str(need).c_str())); return; }
             if (s.data && !g_shm->any_error && (g_shm->delivered_c != b.dc || g_shm->delivered_s != b.ds))
-                { report(c, "c19:data-lost-without-error", where + fmt("; delivered client=%llu server=%llu (fault-free %llu/%llu) and no error was reported", (unsigned long long) g_shm->delivered_c, (unsigned long long) g_shm->delivered_s, (unsigned long long) b.dc, (unsigned long long) b.ds)); return; }
+                { report(c, "c19:data-lost-without-error@" + own, where + fmt("; delivered client=%llu server=%llu (fault-free %llu/%llu) and no error was reported", (unsigned long long) g_shm->delivered_c, (unsigned long long) g_shm->delivered_s, (unsigned long long) b.dc, (unsigned long long) b.ds)); return; }
         } else c.count("outcome:clean-failure");
     } else c.count(g_shm->any_error ? "outcome:clean-failure" : "outcome:success-despite-fault");
     // leaks: live armed-window allocations after full teardown, beyond what run 0 leaves per call site
     if (g_shm->ledger_overflow) { report(c, "c19:harness-ledger-overflow", where); return; }
-    std::map<void *, unsigned> live; for (uint32_t i = 0; i < g_shm->n_live; i++) live[g_shm->live[i].stack[0]]++;
+    std::map<void *, unsigned> live; for (uint32_t i = 0; i < g_shm->n_live; i++) live[g_shm->live[i].site]++;
     for (uint32_t i = 0; i < g_shm->n_live; i++) {
-        void *a = g_shm->live[i].stack[0]; auto it = b.live.find(a);
+        void *a = g_shm->live[i].site; auto it = b.live.find(a);
         if (live[a] > (it == b.live.end() ? 0u : it->second)) {
-            const SiteInfo &ls = site(a);
+            c19_live_t lv = g_shm->live[i]; uint64_t total = g_shm->live_total;
             c.count("outcome:leak");
-            report(c, "c19:leak@" + ls.fn, where + fmt("; %llu allocation(s) still live after deleting sessions, keys and matrixSslClose() (fault-free run: %llu); e.g. %llu bytes (#%llu) allocated at %s via %s", (unsigned long long) g_shm->live_total,
-                                                      (unsigned long long) b.live_total, (unsigned long long) g_shm->live[i].size, (unsigned long long) g_shm->live[i].seq, site_str(a).c_str(), stack_str(g_shm->live[i].stack, 1).c_str()));
+            // deterministic re-run that records where the leaked block was allocated
+            std::string via;
+            ChildResult r2 = run_child(s, mode, k, lv.seq);
+            if (!r2.crashed && g_shm->trace.seq == lv.seq) via = stack_str(g_shm->trace, 0);
+            const SiteInfo &ls = site(a);
+            // root cause = the function that owns the leaked object (first non-bulk frame of the allocation stack)
+            std::string lown = (!r2.crashed && g_shm->trace.seq == lv.seq) ? owner_fn(g_shm->trace) : ls.fn;
+            report(c, "c19:leak@" + lown, where + fmt("; %llu allocation(s) still live after deleting sessions, keys and matrixSslClose() (fault-free run: %llu); e.g. %llu bytes (#%llu) allocated at %s via %s", (unsigned long long) total,
+                                                      (unsigned long long) b.live_total, (unsigned long long) lv.size, (unsigned long long) lv.seq, site_str(a).c_str(), via.c_str()));
             return;
         }
     }
@@ -802,6 +857,7 @@ void vf_global_init(int argc, char **argv) {
         else if (a == "--seed" && i + 1 < argc) g_seed = strtoull(argv[i + 1], 0, 10);
     }
     g_collect = getenv("C19_COLLECT");
+    g_full = getenv("C19_FULL") != nullptr;    // campaign helper: no sampling at all (hours)
     if (const char *o = getenv("C19_ONLY")) { for (const char *p = o; *p;) { g_only.insert((size_t) strtoul(p, (char **) &p, 10)); if (*p == ',') p++; } }
     if (g_scn.empty()) build_scenarios();
     g_base.resize(g_scn.size());
@@ -812,11 +868,20 @@ void vf_global_init(int argc, char **argv) {
     vfh_entropy_reset(1);
     if (matrixSslOpen() < 0) { fprintf(stderr, "[c19] matrixSslOpen failed\n"); abort(); }
     keystore_init();
+    c19_warmup();
     (void) site((void *) &matrixSslNewKeys);   // start the symbolizer before the first fork
     if (getenv("C19_LIST")) {
-        for (size_t i = 0; i < g_scn.size(); i++) { const Base &b = base_of(i); printf("%2zu %-70s N=%5llu live0=%llu %s%s\n", i, g_scn[i].name.c_str(), (unsigned long long) b.N, (unsigned long long) b.live_total, b.bad ? "BROKEN: " : "", b.bad ? b.err.c_str() : b.outcome.c_str());
+        size_t tot[2][3] = { { 0, 0, 0 }, { 0, 0, 0 } };
+        for (size_t i = 0; i < g_scn.size(); i++) {
+            if (!g_only.empty() && !g_only.count(i)) continue;
+            const Base &b = base_of(i); printf("%2zu %-66s N=%5llu live0=%llu %s%s\n", i, g_scn[i].name.c_str(), (unsigned long long) b.N, (unsigned long long) b.live_total, b.bad ? "BROKEN: " : "", b.bad ? b.err.c_str() : b.outcome.c_str());
             if (getenv("C19_HIST")) { std::map<std::string, unsigned> h; for (auto pc : b.sites) h[site_str(pc)]++; std::vector<std::pair<unsigned, std::string>> v; for (auto &kv : h) v.push_back({ kv.second, kv.first }); std::sort(v.rbegin(), v.rend()); for (size_t j = 0; j < v.size() && j < 40; j++) printf("        %6u %s\n", v[j].first, v[j].second.c_str()); printf("        distinct sites: %zu\n", v.size()); }
-            size_t m = 0; for (auto x : b.math) m += x; printf("      math=%zu other=%zu main[%s] prime[%s]\n", m, b.math.size() - m, facts_str(b.main_).c_str(), facts_str(b.prime).c_str()); }
+            size_t sel[2][3] = { { 0, 0, 0 }, { 0, 0, 0 } };
+            bool q0 = g_quick; for (int q = 0; q < 2; q++) { g_quick = q; for (int m = 0; m < 2; m++) for (uint64_t k = 1; k <= b.N; k++) sel[q][m] += selected(b, m, k); sel[q][2] = q ? 12 : 300; for (int m = 0; m < 3; m++) tot[q][m] += sel[q][m]; } g_quick = q0;
+            if (b.live_total) { printf("      live after full teardown in the fault-free run:"); for (auto &kv : b.live) printf(" %ux %s;", kv.second, site_str(kv.first).c_str()); printf("\n"); }
+            printf("      bulk=%zu other=%zu contexts=%zu | thorough single/sticky=%zu/%zu quick=%zu/%zu | main[%s] prime[%s]\n", b.nbulk, b.sites.size() - b.nbulk, b.nctx, sel[0][0], sel[0][1], sel[1][0], sel[1][1], facts_str(b.main_).c_str(), facts_str(b.prime).c_str());
+        }
+        printf("TOTAL thorough single=%zu sticky=%zu random=%zu | quick single=%zu sticky=%zu random=%zu\n", tot[0][0], tot[0][1], tot[0][2], tot[1][0], tot[1][1], tot[1][2]);
         fflush(stdout);
     }
 }
